@@ -55,6 +55,10 @@ def run_family(ctx, scens, budget_per, name, sig=None):
             worlds.append(w)
             ws.append(s)
             steps += w.steps
+    ctx.extra["judge_override"] = scens[0]["judge"]
+    kw, ks = poolsim.known_replays(h, ctx)
+    worlds += kw
+    ws += ks
     outcomes = {}
     for w in worlds:
         outcomes[w.outcome] = outcomes.get(w.outcome, 0) + 1
